@@ -78,6 +78,15 @@ func genDMContent(t *rapid.T, cw int) []byte {
 		}
 	}
 	filler := rapid.SampledFrom([]byte{'A', 0, 127, ' '}).Draw(t, "filler")
+	if rapid.IntRange(0, 11).Draw(t, "latin1") == 0 {
+		// valid UTF-8 text with runes <= U+00FF somewhere in the content
+		l1 := []byte(latin1Text(t, 12))
+		p := 0
+		if len(out) > 0 {
+			p = rapid.IntRange(0, len(out)).Draw(t, "l1at")
+		}
+		out = append(append(append([]byte{}, out[:p]...), l1...), out[p:]...)
+	}
 	return dmFit(out, cw, filler)
 }
 
